@@ -451,6 +451,17 @@ def r07_1(ctx):
     """In every protocol version the map command name -> frame ID is injective, every ID fits that version's
     header (<= 0xFF for 4..7, <= 0xFFFF for 8..14), and the handler class uses its own version's table."""
     total = 0
+    # a damaged table entry convicts the codec property (C07) and those properties whose own commands / callbacks are involved
+    uses = {"C12": {"sendUnicast", "sendMulticast", "sendBroadcast", "messageSentHandler", "setSourceRoute", "setExtendedTimeout", "getExtendedTimeout",
+                    "lookupNodeIdByEui64", "lookupEui64ByNodeId", "setAddressTableRemoteEui64", "setAddressTableRemoteNodeId", "getAddressTableRemoteEui64",
+                    "getAddressTableRemoteNodeId", "replaceAddressTableEntry", "setAddressTableInfo", "getAddressTableInfo", "getConfigurationValue"},
+            "C13": {"incomingMessageHandler", "trustCenterJoinHandler"},
+            "C17": {"formNetwork", "leaveNetwork", "networkInit", "networkState", "stackStatusHandler", "startScan", "energyScanResultHandler",
+                    "networkFoundHandler", "scanCompleteHandler", "stopScan"}}
+
+    def scope(*names):
+        return ("C07",) + tuple(p_ for p_, cs in uses.items() if cs & set(names))
+
     for v in VERSIONS:
         cmds = commands(ctx, v)
         hc = handler_commands(ctx, v)
@@ -462,14 +473,14 @@ def r07_1(ctx):
         for name, entry in cmds.items():
             total += 1
             if not (isinstance(entry, tuple) and len(entry) == 3 and isinstance(entry[0], int)):
-                ctx.violation(f"v{v}:{name}:entry", f"v{v} {name}: entry {entry!r:.80} is not (id, tx_schema, rx_schema)")
+                ctx.violation(f"v{v}:{name}:entry", f"v{v} {name}: entry {entry!r:.80} is not (id, tx_schema, rx_schema)", props=scope(name))
                 continue
             cid = entry[0]
             if cid in seen:
                 ctx.violation(f"v{v}:duplicate-id:{name}", f"v{v}: frame ID 0x{cid:04X} belongs to both {seen[cid]} and {name}",
-                              file=f"bellows/ezsp/v{v}/commands.py", construct=f"0x{cid:04X}")
+                              file=f"bellows/ezsp/v{v}/commands.py", construct=f"0x{cid:04X}", props=scope(name, seen[cid]))
             elif not (0 <= cid <= limit):
-                ctx.violation(f"v{v}:id-range:{name}", f"v{v} {name}: frame ID 0x{cid:X} does not fit the version's header")
+                ctx.violation(f"v{v}:id-range:{name}", f"v{v} {name}: frame ID 0x{cid:X} does not fit the version's header", props=scope(name))
             else:
                 ctx.ok(1)
             seen.setdefault(cid, name)
